@@ -13,6 +13,7 @@
 #include <stdexcept>  // std::logic_error
 
 #include "../Util/TypeTraits.h"
+#include "../Util/VerifHooks.h"
 
 namespace Spectra {
 
@@ -44,6 +45,9 @@ namespace Spectra {
 template <typename Scalar = double>
 class UpperHessenbergQR
 {
+#ifdef SPECTRA_VERIF
+    friend struct ::SpectraVerifAccess;
+#endif
 private:
     using Index = Eigen::Index;
     using Matrix = Eigen::Matrix<Scalar, Eigen::Dynamic, Eigen::Dynamic>;
@@ -544,6 +548,9 @@ public:
 template <typename Scalar = double>
 class TridiagQR : public UpperHessenbergQR<Scalar>
 {
+#ifdef SPECTRA_VERIF
+    friend struct ::SpectraVerifAccess;
+#endif
 private:
     using Index = Eigen::Index;
     using Matrix = Eigen::Matrix<Scalar, Eigen::Dynamic, Eigen::Dynamic>;
